@@ -14,6 +14,10 @@
 (* context, and the kept candidate is a smallest one.  The mutation        *)
 (* StartInJob (the job registers itself when it begins instead of being    *)
 (* registered by the submitter) must be rejected.                          *)
+(* Error exit: when the submitter cannot allocate the data of the next job *)
+(* it leaves through COVER_best_destroy (which waits for the jobs already  *)
+(* handed out), COVER_ctx_destroy and POOL_free.  DestroyWaits = FALSE is  *)
+(* the mutation in which the destroy no longer waits; it must be rejected. *)
 (***************************************************************************)
 EXTENDS Naturals, FiniteSets, TLC
 
@@ -21,7 +25,8 @@ CONSTANTS Ctxs,          \* number of contexts (values of d)
           JobsPer,       \* jobs per context (values of k)
           Workers,       \* worker threads
           Size,          \* Size[c][j]: compressed size the job (c, j) measures
-          StartInJob     \* FALSE: the design; TRUE: mutation
+          StartInJob,    \* FALSE: the design; TRUE: mutation
+          DestroyWaits   \* TRUE: the design; FALSE: mutation (error exit destroys without waiting)
 
 Jobs == {<<c, j>> : c \in 1..Ctxs, j \in 1..JobsPer}
 \* size tables for the configurations (ties included: two jobs may measure the same size)
@@ -37,45 +42,53 @@ VARIABLES cur,        \* context the submitter is working on (Ctxs + 1 = finishe
           done,       \* jobs reported
           liveJobs,
           best,       \* <<size, job>> kept, or <<0, <<0, 0>> >> when nothing kept yet
-          uaf         \* a job touched a destroyed context
-vars == <<cur, sub, phase, alive, queue, running, done, liveJobs, best, uaf>>
+          uaf,        \* a job touched a destroyed context
+          aborted     \* the submitter left through the error exit
+vars == <<cur, sub, phase, alive, queue, running, done, liveJobs, best, uaf, aborted>>
 
 Init == /\ cur = 1 /\ sub = 0 /\ phase = "submit" /\ alive = {1} /\ queue = {} /\ running = {} /\ done = {}
-        /\ liveJobs = 0 /\ best = <<0, <<0, 0>> >> /\ uaf = FALSE
+        /\ liveJobs = 0 /\ best = <<0, <<0, 0>> >> /\ uaf = FALSE /\ aborted = FALSE
 
 \* COVER_best_start + POOL_add
 Submit == /\ phase = "submit" /\ cur <= Ctxs /\ sub < JobsPer
           /\ sub' = sub + 1 /\ queue' = queue \cup {<<cur, sub + 1>>}
           /\ liveJobs' = IF StartInJob THEN liveJobs ELSE liveJobs + 1
-          /\ UNCHANGED <<cur, phase, alive, running, done, best, uaf>>
+          /\ UNCHANGED <<cur, phase, alive, running, done, best, uaf, aborted>>
 AllSubmitted == /\ phase = "submit" /\ cur <= Ctxs /\ sub = JobsPer /\ phase' = "wait"
-                /\ UNCHANGED <<cur, sub, alive, queue, running, done, liveJobs, best, uaf>>
+                /\ UNCHANGED <<cur, sub, alive, queue, running, done, liveJobs, best, uaf, aborted>>
 \* COVER_best_wait returns when liveJobs = 0; then COVER_ctx_destroy and the next context
 WaitDone == /\ phase = "wait" /\ liveJobs = 0
             /\ alive' = (alive \ {cur}) \cup (IF cur < Ctxs THEN {cur + 1} ELSE {})
             /\ cur' = cur + 1 /\ sub' = 0 /\ phase' = "submit"
-            /\ UNCHANGED <<queue, running, done, liveJobs, best, uaf>>
+            /\ UNCHANGED <<queue, running, done, liveJobs, best, uaf, aborted>>
+\* malloc of the next job's data fails: error exit.  COVER_best_destroy (waits in the design), COVER_ctx_destroy; POOL_free then joins
+\* the workers, which finish what they had begun - on a context that is gone if nobody waited
+AllocFail == /\ phase = "submit" /\ cur <= Ctxs /\ sub < JobsPer /\ phase' = "abort"
+             /\ UNCHANGED <<cur, sub, alive, queue, running, done, liveJobs, best, uaf, aborted>>
+AbortDone == /\ phase = "abort" /\ (DestroyWaits => liveJobs = 0)
+             /\ alive' = {} /\ cur' = Ctxs + 1 /\ phase' = "gone" /\ aborted' = TRUE
+             /\ UNCHANGED <<sub, queue, running, done, liveJobs, best, uaf>>
 \* a worker takes a job: it reads the context from here on
 Begin(jb) == /\ jb \in queue /\ Cardinality(running) < Workers
              /\ queue' = queue \ {jb} /\ running' = running \cup {jb}
              /\ liveJobs' = IF StartInJob THEN liveJobs + 1 ELSE liveJobs
              /\ uaf' = (uaf \/ jb[1] \notin alive)
-             /\ UNCHANGED <<cur, sub, phase, alive, done, best>>
+             /\ UNCHANGED <<cur, sub, phase, alive, done, best, aborted>>
 \* the job works on its context (any number of steps), then reports
 Work(jb) == /\ jb \in running /\ uaf' = (uaf \/ jb[1] \notin alive)
-            /\ UNCHANGED <<cur, sub, phase, alive, queue, running, done, liveJobs, best>>
+            /\ UNCHANGED <<cur, sub, phase, alive, queue, running, done, liveJobs, best, aborted>>
 Finish(jb) == /\ jb \in running
               /\ running' = running \ {jb} /\ done' = done \cup {jb}
               /\ liveJobs' = liveJobs - 1
               /\ best' = IF best[1] = 0 \/ Size[jb[1]][jb[2]] < best[1] THEN <<Size[jb[1]][jb[2]], jb>> ELSE best
               /\ uaf' = (uaf \/ jb[1] \notin alive)
-              /\ UNCHANGED <<cur, sub, phase, alive, queue>>
+              /\ UNCHANGED <<cur, sub, phase, alive, queue, aborted>>
 
-Next == Submit \/ AllSubmitted \/ WaitDone \/ (\E jb \in Jobs : Begin(jb) \/ Work(jb) \/ Finish(jb))
+Next == Submit \/ AllSubmitted \/ WaitDone \/ AllocFail \/ AbortDone \/ (\E jb \in Jobs : Begin(jb) \/ Work(jb) \/ Finish(jb))
 Spec == Init /\ [][Next]_vars
 \* progress: with a fair pool (a queued job is eventually begun, a running job eventually reports) and a submitter that keeps going,
 \* the optimiser finishes - in particular COVER_best_wait is always woken
-Progress == Submit \/ AllSubmitted \/ WaitDone \/ (\E jb \in Jobs : Begin(jb) \/ Finish(jb))
+Progress == Submit \/ AllSubmitted \/ WaitDone \/ AbortDone \/ (\E jb \in Jobs : Begin(jb) \/ Finish(jb))
 FairSpec == Spec /\ WF_vars(Progress)
 Terminates == <>(cur = Ctxs + 1)
 
@@ -83,7 +96,7 @@ NoUseAfterDestroy == ~uaf
 CounterExact == StartInJob \/ liveJobs = Cardinality({jb \in queue \cup running : TRUE})
 \* when the submitter has passed the last wait, every job has reported and a smallest candidate was kept
 Finished == cur = Ctxs + 1
-BestIsMin == Finished => /\ done = Jobs
+BestIsMin == (Finished /\ ~aborted) => /\ done = Jobs
                          /\ \A jb \in Jobs : best[1] <= Size[jb[1]][jb[2]]
 LiveNonNeg == liveJobs >= 0
 =============================================================================
